@@ -362,21 +362,21 @@ class VmControlData(TlbScheme):
     def serialize(cls, value: "VmControlData") -> Cell:
         builder = Builder()
 
-        if value.nargs:
+        if getattr(value, 'nargs', None) is not None:  # nargs = 0 is a value, not "absent"
             builder.store_bit_int(1)
             builder.store_uint(value.nargs, 13)
         else:
             builder.store_bit_int(0)
 
-        if value.stack:
+        if getattr(value, 'stack', None):
             builder.store_bit_int(1)
             builder.store_cell(value.stack)
         else:
             builder.store_bit_int(0)
 
-        builder.store_cell(VmSaveList.serialize(value.save))
+        builder.store_cell(VmSaveList.serialize(getattr(value, 'save', None)))
 
-        if value.cp:
+        if getattr(value, 'cp', None) is not None:  # cp = 0 (the standard codepage) is a value, not "absent"
             builder.store_bit_int(1)
             builder.store_int(value.cp, 16)
         else:
@@ -386,7 +386,7 @@ class VmControlData(TlbScheme):
 
     @classmethod
     def deserialize(cls, cell_slice: Slice) -> "VmControlData":
-        kwargs = {}
+        kwargs = {'nargs': None, 'stack': None, 'cp': None}
         is_nargs = cell_slice.load_bit()
         if is_nargs:
             kwargs['nargs'] = cell_slice.load_uint(13)
